@@ -178,11 +178,11 @@ func (ig *incGen) file(depth int, cmdSafe, allowAffix bool, feats map[string]boo
 	ind := func() string { return core.Pick(r, "", "", "  ", "\t") }
 	if allowAffix && core.Chance(r, 1, 3) {
 		feats["inc-prefix"] = true
-		sb.WriteString(ind() + "##!^ " + core.Pick(r, `\b`, `[a-c]`, `(?:x|y)`, `pre`) + "\n")
+		sb.WriteString(ind() + "##!^ " + core.Pick(r, `\b`, `[a-c]`, `(?:x|y)`, `pre`, `(?:%2e|\.)+`, `%u00`, `[%&]`) + "\n")
 	}
 	if allowAffix && core.Chance(r, 1, 3) {
 		feats["inc-suffix"] = true
-		sb.WriteString(ind() + "##!$ " + core.Pick(r, `\b`, `[^a-z]`, `\d?`, `post`) + "\n")
+		sb.WriteString(ind() + "##!$ " + core.Pick(r, `\b`, `[^a-z]`, `\d?`, `post`, `100%`, `%s`, `%d%%`) + "\n")
 	}
 	if allowAffix && !cmdSafe && core.Chance(r, 1, 5) {
 		// prefix / suffix built from the file's own definitions, which refer to each other (two or three levels)
@@ -503,6 +503,13 @@ func c06Gen(rng *rand.Rand) *metaCase {
 		}
 		feats["exclude-file-in-two-contexts"] = true
 	}
+	// keys that are regular-expression syntax: they are compared as text with the end of an entry
+	if core.Chance(rng, 1, 5) {
+		p.Files.Include["metakeys"] = "select\\s+\nfrom[0-9]\nwhere.*\nplainword\nunion(a)\n"
+		p.Files.Exclude["metax"] = "notlisted\n"
+		main = append(main, core.Pick(rng, "##!> include metakeys -- \\s+ \\s* [0-9] \\d", "##!> include-except metakeys metax -- \\s+ \\s* [0-9] \\d .* .+", "##!> include metakeys -- (a) (?:b) .* x"))
+		feats["keys-with-regex-syntax"] = true
+	}
 	// a name that only the including program defines (before or after the directive) is used by entries of the
 	// include file and of the exclude file: both are compared as written, the reference is expanded afterwards
 	if core.Chance(rng, 1, 4) {
@@ -564,7 +571,7 @@ func c07Gen(rng *rand.Rand) *metaCase {
 	// acyclic reference graph: definition i may refer to definitions with a larger index
 	vals := make([]string, nd)
 	for i := range names {
-		v := core.Pick(rng, "abc", `\d{2}`, `[a-c]+`, `a{2}`, `[{]`, `(?:x|y)`, `(?:m|n)`, `\.`, `q?`, `\$_get`, `[$a-z_][$\w]*`, `a{1,2}${3}`, `\$1`, `$`, ",", `\.`, "x", "3", "é", `[^{}]`, `w{1,3}`)
+		v := core.Pick(rng, "abc", `\d{2}`, `[a-c]+`, `a{2}`, `[{]`, `(?:x|y)`, `(?:m|n)`, `\.`, `q?`, `\$_get`, `[$a-z_][$\w]*`, `a{1,2}${3}`, `\$1`, `$`, ",", `\.`, "x", "3", "é", `[^{}]`, `w{1,3}`, "x\u00a0", "\u00a0y", "z\u3000", "a\u2003")
 		if i+1 < nd && feats["definition-chain-of-9-or-more"] {
 			v = core.Pick(rng, "a", "b", "[0-9]", "x?") + "{{" + names[i+1] + "}}"
 		} else if i+1 < nd && core.Chance(rng, 1, 2) {
